@@ -132,7 +132,7 @@ class BaseNode(Node):
     def set_value(self, value=None):
         """ Set value using value_raw or arbitrary value
         """
-        if value is None and self.value_raw:
+        if value is None and not (self.value_raw is None or (isinstance(self.value_raw, str) and self.value_raw=='')):
             self.value = self.cast_value()
         elif value is not None:
             self.value = value
